@@ -168,6 +168,7 @@ def main():
     ap.add_argument("--jobs", type=int, default=14)
     ap.add_argument("--out", default="/tmp/mutgen.jsonl")
     ap.add_argument("--retest", default="")
+    ap.add_argument("--skip-seen", default="", dest="skip_seen")
     ap.add_argument("--status", default="GAP,undecided-exit2")
     a = ap.parse_args()
     mods = a.modules.split(",") if a.modules else ["architecture", "bk_encoding", "bk_wav", "builtins", "compiler", "containers", "context", "deferred", "devices", "formats", "insns",
@@ -175,6 +176,9 @@ def main():
     allm = enumerate_mutants(mods)
     random.Random(a.seed).shuffle(allm)
     pick = allm[:a.limit]
+    if a.skip_seen:
+        seen = {tuple(x) for x in json.load(open(a.skip_seen))}
+        pick = [m for m in allm if (m["module"], m["line"], m["kind"], m["old"], m["new"]) not in seen][:a.limit]
     if a.retest:
         want = set()
         for l in open(a.retest):
